@@ -214,6 +214,9 @@ impl<'r> Gen<'r> {
         // an input reference or symbol of the right type, if any
         let refs: Vec<String> = self.refs.iter().filter(|(_, t)| *t == ty).map(|(n, _)| n.clone()).collect();
         let syms: Vec<String> = self.syms.iter().filter(|(_, t)| *t == ty).map(|(n, _)| n.clone()).collect();
+        if ty == Ty::Map && !self.refs.is_empty() && self.rng.chance(1, 6) {
+            return X::Ref("facts".into()); // the whole input
+        }
         match self.rng.below(4) {
             0 if !refs.is_empty() => X::Ref(self.rng.pick(&refs).clone()),
             1 if !syms.is_empty() => X::Sym(self.rng.pick(&syms).clone()),
@@ -431,6 +434,27 @@ impl<'r> Gen<'r> {
                 3 => X::un(UnOp::Duration, self.leaf(Ty::Duration)),
                 _ => self.leaf(Ty::Duration),
             },
+            Ty::Vec if self.rng.chance(1, 12) => {
+                // a long list of leaves: chunked / batched evaluation of many items would show here
+                let n = 5 + self.rng.usize(10);
+                let mut items = Vec::new();
+                for _ in 0..n {
+                    let t = *self.rng.pick(&[Ty::Int, Ty::Int, Ty::Bool, Ty::Str]);
+                    items.push(self.leaf(t));
+                }
+                X::Vec(items)
+            }
+            Ty::Map if self.rng.chance(1, 12) => {
+                let n = 5 + self.rng.usize(8);
+                let mut keys: Vec<String> = (0..n).map(|i| format!("k{i}")).collect();
+                let mut entries = Vec::new();
+                while !keys.is_empty() {
+                    let k = keys.swap_remove(self.rng.usize(keys.len()));
+                    let t = *self.rng.pick(&[Ty::Int, Ty::Int, Ty::Bool, Ty::Str]);
+                    entries.push((k, self.leaf(t)));
+                }
+                X::Map(entries)
+            }
             Ty::Vec => match self.rng.below(4) {
                 0 | 1 | 2 => {
                     let n = self.rng.usize(4);
